@@ -3,6 +3,7 @@ package main
 import (
 	"fmt"
 	"math/rand"
+	"strings"
 )
 
 // genDiffCase builds up to four trees related in different ways (ancestor/descendant through
@@ -190,6 +191,28 @@ func famCursor(f *FamCtx) {
 	f.Gen = func() Case { return genCursorCase(f.Rand, RandCfg(f.Rand)) }
 	n := f.N(250, 10000)
 	for i := 0; i < n; i++ {
+		if i%12 == 11 {
+			// walks over a tree that is taller than its entries warrant (an entry-less top node over
+			// a child: an interrupted Delete, or a version written by an earlier release)
+			c := genInterruptedDeleteCase(f.Rand, RandCfg(f.Rand))
+			uni := []string{}
+			for _, op := range c.Ops {
+				if t := strings.Fields(op); t[0] == "ins" {
+					uni = append(uni, t[2])
+				}
+			}
+			for _, sl := range []string{"0", "4"} {
+				for j := 0; j < 3; j++ {
+					mv := ""
+					for q := 0; q < 2+f.Rand.Intn(8); q++ {
+						mv += pick(f.Rand, []string{"f", "f", "b"})
+					}
+					c.Ops = append(c.Ops, fmt.Sprintf("cwalk %s %s %s", sl, pick(f.Rand, uni), mv), fmt.Sprintf("seek %s %s", sl, pick(f.Rand, uni)))
+				}
+			}
+			f.RunTreeCase(c, faultRunner, multiLevel)
+			continue
+		}
 		f.RunTreeCase(f.Gen(), exactRunner, multiLevel)
 	}
 }
